@@ -29,7 +29,8 @@ theorem yield_head : (x : Expr) → nf x = true → headK (yield x) ≠ .dot ∧
     cases ns with
     | nil => simp [yield, pathToks, headK_cons]
     | cons b ns => simp [yield, pathToks, headK_cons]
-  | .paren _, _ => by simp [yield, headK_cons, T]
+  | .paren _, _ | .caseE .., _ | .ifE .., _ | .array .nil, _ | .array (.cons _ _), _ | .cast .., _ => by
+    simp [yield, headK_cons, T]
   | .unary op _, _ => by cases op <;> simp [yield, headK_cons, T, UOp.tk]
   | .bin _ l _, h => by
     obtain ⟨h1, h2⟩ := yield_head l (by simp only [nf, Bool.and_eq_true] at h; exact h.1)
